@@ -246,20 +246,20 @@ pub fn adjust_rem<S: Src>(s: &mut S, bits: u32, max_stride: u64) {
 }
 
 crate::harnesses! {
-    @quick c02_contains_8 => contains_eq(8, 255);
-    c02_contains_64_s16 => contains_eq(64, 16);
-    @quick c02_add_sub_8 => add_sub(8, 255);
-    c02_add_sub_16_s15 => add_sub(16, 15);
-    @quick c02_mul_8 => mul(8, 255);
-    @quick c02_unary_8 => unary(8, 255);
-    c02_unary_64_s16 => unary(64, 16);
-    @quick c02_zext_8_16 => zext(8, 16, 255);
-    c02_zext_8_64 => zext(8, 64, 255);
-    @quick c02_piece_8_8 => piece(8, 8, 255);
-    @quick c02_subpiece_16_1_1 => subpiece(16, 1, 1, 255);
-    @quick c02_subpiece_16_0_1 => subpiece(16, 0, 1, 255);
-    c02_subpiece_32_1_2 => subpiece(32, 1, 2, 15);
-    c02_subpiece_32_0_2 => subpiece(32, 0, 2, 15);
-    @quick c02_adjust_8 => adjust(8, 255);
-    @quick c02_adjust_rem_8 => adjust_rem(8, 255);
+    @quick c02_contains_8[4] => contains_eq(8, 255);
+    c02_contains_64_s16[4] => contains_eq(64, 16);
+    @quick c02_add_sub_8[4] => add_sub(8, 255);
+    c02_add_sub_16_s15[4] => add_sub(16, 15);
+    @quick c02_mul_8[4] => mul(8, 255);
+    @quick c02_unary_8[4] => unary(8, 255);
+    c02_unary_64_s16[4] => unary(64, 16);
+    @quick c02_zext_8_16[4] => zext(8, 16, 255);
+    c02_zext_8_64[4] => zext(8, 64, 255);
+    @quick c02_piece_8_8[4] => piece(8, 8, 255);
+    @quick c02_subpiece_16_1_1[4] => subpiece(16, 1, 1, 255);
+    @quick c02_subpiece_16_0_1[4] => subpiece(16, 0, 1, 255);
+    c02_subpiece_32_1_2[4] => subpiece(32, 1, 2, 15);
+    c02_subpiece_32_0_2[4] => subpiece(32, 0, 2, 15);
+    @quick c02_adjust_8[4] => adjust(8, 255);
+    @quick c02_adjust_rem_8[4] => adjust_rem(8, 255);
 }
